@@ -106,10 +106,10 @@ example : (lp_bcrypt.toFormat.parse (ofString "$2b$12$abcdefghijklmnopqrstuu0123
 example : (lp_pbkdf2_sha256.toFormat.parse (ofString "$pbkdf2-sha256$1000$v7BLXAez2TI$HENDyP2Vf/dRMmcdeY0bZ9qnUJm3J6a.3xe1iPlt3Dg")).map (·.rounds) = some (some 1000) := by decide +kernel
 example : (lp_phc_argon2.toFormat.parse (ofString "$argon2id$v=19$m=65536,t=3,p=4$c29tZXNhbHRzb21lc2FsdA$AcmqasQgW/wI6wAHAMk4aQ")).map (·.extra.length) = some 3 := by decide +kernel
 example : (lp_phc_bcrypt_sha256.toFormat.parse (ofString "$bcrypt-sha256$v=2,t=2b,r=4$/vA2nrnSOqPYkI5hvvXaS.$Kf.zvUf1gDawJP6jX2Y/LTLb6P4hKBK")).map (·.extra.length) = some 3 := by decide +kernel
-/-- the libpass PHC inspector lets a KeyError escape on a record that lacks a declared parameter -/
-example : lp_phc_argon2.parseE (ofString "$argon2id$v=19$m=65536,t=3$c29tZXNhbHRzb21lc2FsdA$AcmqasQgW/wI6wAHAMk4aQ") = .error .keyError := by decide +kernel
-/-- scram: an empty alg name reaches `assert name` inside passlib.crypto.digest.lookup_hash -/
-example : scram.parseE (ofString "$scram$6400$c2FsdA$=AAAA,sha-1=AAAA") = .error .assertionError := by decide +kernel
+/-- the libpass PHC inspector answers None on a record that lacks a declared parameter (it let a KeyError escape before the `fix:` commit) -/
+example : lp_phc_argon2.parseE (ofString "$argon2id$v=19$m=65536,t=3$c29tZXNhbHRzb21lc2FsdA$AcmqasQgW/wI6wAHAMk4aQ") = .ok none := by decide +kernel
+/-- scram: an empty alg name is a value error (it reached `assert name` inside passlib.crypto.digest.lookup_hash before the `fix:` commit) -/
+example : scram.parseE (ofString "$scram$6400$c2FsdA$=AAAA,sha-1=AAAA") = .error .unknownHash := by decide +kernel
 
 /-! ### libpass ↔ passlib: the two sha256-crypt parsers accept different strings (model-level witnesses; the
     complete list of concrete disagreements, also for bcrypt / pbkdf2 / argon2 / bcrypt-sha256, is in the C07 notes) -/
